@@ -28,7 +28,7 @@ MANIFEST = dict(
           "of LF): parse_gold returns a tree every node of which has start <= end on lines <= L, carries its identifier token inside its range "
           "(constants, types, fields, parameters, locals, enum variants, record fields, class/module headers, type references, OQL from-items; "
           "`for` blocks when the end token was found; declaration kinds always carry the token), procedures/functions contain their name node; "
-          "every parser diagnostic (token range, default range, sep-list recovery range, top-level first..last range) and every lexer error is "
+          "every parser diagnostic (token range -- for an error at the very end of a recovering loop's input the LAST token of that input, no default range 0:0-0:0 any more --, sep-list recovery range, top-level first..last range) and every lexer error is "
           "well-formed; every outline symbol and child has well-formed range and selection range with the selection inside. Refuted and guarded: "
           "the counter token of a `for` block without end token lies outside the block's fallback range (not a declaration, never used as a "
           "selection range). Tie: all C04 streams (strings <= 4 over 17 lexical symbols, token sequences, soups, mutated fixtures and generated "
